@@ -705,6 +705,17 @@ def r_retry_floor(rep, f):
             if any(o.get("k") == "Path" and o.get("id") in timey for o in ops) and not all(o.get("k") == "Lit" or (o.get("k") == "Path" and o.get("id") in timey) for o in ops):
                 encl = next((p_ for p_ in reversed(parents) if p_.get("k") == "Block"), main)
                 raises.append((encl, a_, "`%s`" % tast.render(a_)[:60], parents))
+        # raising the step on the ACCEPTED path (the controller's growth, `hnew.max(hmin)` after an accepted step) is not a
+        # retry: only sites that a rejected iteration can reach count - those not nested in the accepting branch
+        if raises:
+            try:
+                hk0 = rk.analyse_variants(f, fn)[0][2]
+                acc_if, acc_br = hk0.accept_if, getattr(hk0, "accept_branch", "then")
+            except rk.AnalysisError:
+                acc_if, acc_br = None, "then"
+            acc_region = (acc_if.get(acc_br) if acc_if is not None else None)
+            if acc_region is not None:
+                raises = [r_ for r_ in raises if not tast.contains(acc_region, lambda z, a_=r_[1]: z is a_)]
         if not raises:
             rep.ok("R-RETRY-FLOOR", key, "no statement raises the trial step between a rejection and the next attempt", nontrivial=False)
             continue
@@ -716,6 +727,39 @@ def r_retry_floor(rep, f):
             k2 = "%s:%s" % (key, re.sub(r"[^A-Za-z0-9_<>=. ]", "", what)[:40].strip().replace(" ", "_"))
             if gives_up:
                 rep.ok("R-RETRY-FLOOR", k2, "%s: the branch that raises the trial step also contains a give-up exit" % what)
+                # the give-up test can only see a rejected trial that was put on record: every local it reads that the loop
+                # assigns must have been assigned in the iteration that rejected, on every path that goes round the loop
+                guard_ifs = [i_ for i_ in tast.find(region, lambda z: z.get("k") == "If") if tast.contains(i_["then"], lambda z: z.get("k") in ("Break", "Return"))]
+                assigned_in_loop = {a2["l"].get("id") for a2 in tast.find(main, lambda z: z.get("k") in ("Assign", "AssignOp") and z["l"].get("k") == "Path")}
+                rec = {}
+                for gi in guard_ifs:
+                    for q in tast.find(gi["cond"], lambda z: z.get("k") == "Path" and z.get("res") == "local" and z.get("id") in assigned_in_loop):
+                        rec[q["id"]] = q.get("name")
+                rec = {k_: v_ for k_, v_ in rec.items() if k_ not in timey}
+                if rec:
+                    k3 = k2 + ":record"
+                    try:
+                        runs = rk.analyse_variants(f, fn) + rk.analyse_variants(f, fn, accept="else")
+                    except rk.AnalysisError as e_:
+                        rep.inconc("R-RETRY-FLOOR", k3, str(e_))
+                        continue
+                    stale, n_lat = None, 0
+                    for tag, sx, hk in runs:
+                        for L in (hk.latch or []):
+                            xl = L.get(hk.xkey)
+                            if not isinstance(xl, Poly) or xl != Poly.atom("X"):
+                                continue          # the iteration advanced: not a retry
+                            n_lat += 1
+                            for k_, nm_ in rec.items():
+                                if k_ in (hk.head or {}) and L.get(k_) == hk.head[k_] and stale is None:
+                                    stale = (nm_, tag)
+                    if stale:
+                        rep.violation("R-RETRY-FLOOR", k3, "`%s`, which the give-up test reads, is not updated on a rejecting path that goes round the loop (path variant %s): "
+                                      "the test looks at the record of an earlier trial, puts the step back to the floor and the rejected attempt is repeated for ever" % stale, a_.get("sp"))
+                    elif n_lat == 0:
+                        rep.inconc("R-RETRY-FLOOR", k3, "no retrying end-of-iteration state found")
+                    else:
+                        rep.ok("R-RETRY-FLOOR", k3, "the record read by the give-up test (%s) is refreshed on all %d retrying paths" % (", ".join(sorted(rec.values())), n_lat))
             else:
                 rep.violation("R-RETRY-FLOOR", k2, "%s raises the trial step on the way to the next attempt and has no give-up exit: after a rejection the shrunken step is put back "
                               "to the floor and the same attempt repeats for as long as it keeps failing (min_step set and a right-hand side that fails beyond a point: the run never "
